@@ -41,6 +41,7 @@ def stepRpc (op : String) (args : List String) : Option String :=
       | none => .bool
     let res := match obs.result with
       | .ok v => "ok " ++ dumpV d 64 retTy v
+      | .okNil => "ok ~"
       | .void => "void"
       | .exc i e => s!"exc {i} " ++ dumpV d 64 (excTy i) e
       | .app ty => s!"app {ty}"
